@@ -113,6 +113,9 @@ func canonBin(t *Term) *Term {
 		if c := canonByteCmp(t); c != nil {
 			return c
 		}
+		if c := canonIndQuotCmp(t); c != nil {
+			return c
+		}
 		t = canonBitTest(t)
 		t = canonLinearCmp(t)
 		if len(t.Args) == 2 && cmpOps[t.Name] {
@@ -139,6 +142,16 @@ func canonBin(t *Term) *Term {
 	}
 	if c := canonIndShift(t); c != nil {
 		return c
+	}
+	// a counter scaled by a positive constant is the counter of the multiples: ind<+s>(a)·c = ind<+s·c>(a·c)
+	if t.Name == "*" && l.Op == "ind" && len(l.Args) == 1 {
+		if cv, ok := isConstInt(r); ok && cv.Sign() > 0 {
+			if step, ok := parseStep(l.Name); ok && step.Sign() > 0 {
+				if a, ok := isConstInt(l.Args[0]); ok {
+					return &Term{Op: "ind", Name: "+" + new(big.Int).Mul(step, cv).String(), V: t.V, Args: []*Term{mkConst(new(big.Int).Mul(a, cv), l.Args[0].V)}}
+				}
+			}
+		}
 	}
 	// an ascending counter over multiples of c divided by c is the counter of the quotients: ind<+s>(a)/c = ind<+s/c>(a/c)
 	if t.Name == "/" && l.Op == "ind" && len(l.Args) == 1 {
@@ -930,6 +943,31 @@ func canonIndShift(t *Term) *Term {
 		}
 	}
 	return &Term{Op: "ind", Name: l.Name, V: t.V, Args: []*Term{ninit}}
+}
+
+// canonIndQuotCmp: a counter of groups compared with the number of whole groups. For X >= 0 and a constant c > 0,
+// i < X/c  <=>  c·(i+1) <= X  <=>  c·i − X < −(c−1): the comparison `j <= X−c` of the counter j = c·i of the group starts.
+func canonIndQuotCmp(t *Term) *Term {
+	if t.Name != "<" && t.Name != ">=" {
+		return nil
+	}
+	l, r := t.Args[0], t.Args[1]
+	if l.Op != "ind" || len(l.Args) != 1 || r.Op != "bin" || r.Name != "/" || len(r.Args) != 2 {
+		return nil
+	}
+	cv, ok := isConstInt(r.Args[1])
+	if !ok || cv.Sign() <= 0 || cv.Cmp(big.NewInt(1)) == 0 || !nonNegative(r.Args[0]) {
+		return nil
+	}
+	step, ok := parseStep(l.Name)
+	a, okA := isConstInt(l.Args[0])
+	if !ok || !okA || step.Sign() <= 0 {
+		return nil
+	}
+	j := &Term{Op: "ind", Name: "+" + new(big.Int).Mul(step, cv).String(), V: l.V, Args: []*Term{mkConst(new(big.Int).Mul(a, cv), l.Args[0].V)}}
+	diff := &Term{Op: "bin", Name: "-", V: l.V, Args: []*Term{j, r.Args[0]}}
+	k := new(big.Int).Sub(big.NewInt(1), cv) // −(c−1)
+	return canonLinearCmp(&Term{Op: "bin", Name: t.Name, V: t.V, Args: []*Term{diff, mkConst(k, nil)}})
 }
 
 // canonIndCmp: a descending counter compared with a non-zero constant k is the shifted counter compared with 0.
